@@ -148,8 +148,17 @@ def rule_c_env(chk, progs):
                     else:
                         chk.violation("K2-env", inst, c, "the packer takes the host's directory enumeration order as it comes (C11 A3-source / A3-pipeline fail)")
                 else:
-                    chk.violation("K2-env", inst, c, "the packer queries the environment with %s: the image would depend on time, "
-                                  "locale, process or host state" % nm)
+                    ok_diag, why = (False, None)
+                    if nm in ("getenv", "secure_getenv"):
+                        from ..envflow import diagnostics_only
+                        ok_diag, why = diagnostics_only(prog, f, c)
+                    if ok_diag:
+                        chk.ok("K2-env", inst, c, "the answer only decides whether diagnostics are printed to stderr: followed "
+                               "through values, the locations it is stored in and the functions that return it; every branch "
+                               "on it controls printing only and falls back into the common flow")
+                    else:
+                        chk.violation("K2-env", inst, c, "the packer queries the environment with %s: the image would depend on time, "
+                                      "locale, process or host state%s" % (nm, (" (%s at %s:%d)" % (why[1], why[0].file, why[0].line)) if why else ""))
     # the default job count flows only into the worker count
     prog = progs["gensquashfs"]
     src = prog.need_fn("sqfs_writer_cfg_init")
